@@ -109,6 +109,16 @@ static void c15_run(const hz::ShardCtl& ctl, int nshards, const hz::Args& a, hz:
     c15_offset(o, a.thorough() || ao >= 86390 || ao <= 61, r);
   }
   if (ctl.shard != 0) return;
+  // offsets far beyond 24 hours, in particular those whose low 32 bits look like a small offset
+  {
+    hz::begin_case((1 << 20) - 1, "C15 64-bit offsets");
+    std::vector<long long> big = {86401, 90001, 100000, (1LL << 31) - 1, 1LL << 31, (1LL << 31) + 1, (1LL << 32) - 1, 1LL << 32, (1LL << 32) + 1, (1LL << 32) + 3600, (1LL << 32) + 86400, (1LL << 32) - 3600,
+                                  (5LL << 32) + 45296, (1LL << 33) + 30, (1LL << 40), (1LL << 62) + 7, 1000000000000LL, INT64_MAX, INT64_MAX - 1, INT64_MAX - 86399};
+    for (long long b : big) { c15_offset(b, true, r); if (b != INT64_MIN) c15_offset(-b, true, r); }
+    c15_offset(INT64_MIN, true, r);
+    c15_offset(INT64_MIN + 1, true, r);
+    for (int k = 1; k <= 40; ++k) for (long long low : {-86400LL, -3600LL, -1LL, 0LL, 1LL, 59LL, 3600LL, 45296LL, 86400LL}) { c15_offset((static_cast<long long>(k) << 32) + low, false, r); c15_offset(-(static_cast<long long>(k) << 32) + low, false, r); }
+  }
   hz::begin_case(1 << 20, "C15 names");
   // name strings: single edits (and pairs on digit positions) of canonical names
   const long long base[] = {1, -1, 59, -59, 60, -60, 61, -61, 3599, -3599, 3600, -3600, 3661, -3661, 20700, -12600, 35999, 36000, -36000, 86399, -86399, 86400, -86400, 45296, -45296};
